@@ -5,7 +5,14 @@ import (
 )
 
 func mergeDocs(doc, patch *Document) error {
-	merged, err := merge(doc.Data, patch.Data)
+	// Each target gets its own copy so that targets never share (or mutate)
+	// the patch's data.
+	src, err := deepClone(patch.Data)
+	if err != nil {
+		return err
+	}
+
+	merged, err := merge(doc.Data, src)
 	if err != nil {
 		return err
 	}
@@ -201,7 +208,12 @@ func mergeListMatch(obj []any, m any, v map[string]any) ([]any, error) {
 		if match(v2, m) {
 			found = true
 
-			v2, err := merge(v2, val)
+			val2, err := deepClone(val)
+			if err != nil {
+				return nil, err
+			}
+
+			v2, err := merge(v2, val2)
 			if err != nil {
 				return nil, err
 			}
